@@ -362,7 +362,11 @@ def run_val(ident, t, out):
                 try:
                     a, b, c = mixed_mod.mixed_step_memoization(n_, s_)
                 except Exception as e:  # noqa
-                    return "ok=%d sum=%d kinds=%d err=%d:%s" % (cnt, tot, kinds, n_, type(e).__name__)
+                    try:        # what the other planner says about the same sub-problem
+                        tb = "(%d,%d,%d)" % tuple(int(x) for x in mixed_mod.mixed_steps_tabulation(n_, s_)[n_, min(s_, n_ - 1)])
+                    except Exception as e2:  # noqa
+                        tb = "EXC:" + type(e2).__name__
+                    return "ok=%d sum=%d kinds=%d err=%d:%s tab=%s" % (cnt, tot, kinds, n_, type(e).__name__, tb)
                 cnt += 1
                 tot += int(b) + int(c)
                 kinds += int(a)
